@@ -107,7 +107,7 @@ fn pattern_qual(w: &World, len: usize) -> Vec<u8> {
     (0..len).map(|i| 33 + ((a + i * b + i / 13 + i / 251) % 94) as u8).collect()
 }
 
-fn gen_records(w: &World, kind: Kind, scale: Scale, magic: Option<usize>) -> Vec<Rec> {
+fn gen_records(w: &World, kind: Kind, scale: Scale, magic: Option<usize>, edge_desc: bool) -> Vec<Rec> {
     let mut v: Vec<Rec> = Vec::new();
     let max_recs = if scale == Scale::Many { 300 } else { 6 };
     loop {
@@ -130,8 +130,19 @@ fn gen_records(w: &World, kind: Kind, scale: Scale, magic: Option<usize>) -> Vec
             } else {
                 string_from(w, desc_chars(), 1, 12)
             };
-            // a description never ends in white space (DESIGN §4.1: domain)
-            if d.chars().last().map(|c| c.is_whitespace()).unwrap_or(false) {
+            // Descriptions that end in white space, or are empty, are valid by the letter of the
+            // property ("optional description without line breaks") but are not preserved by the
+            // readers (known finding K1, DESIGN §10.3). They are generated only where asked for
+            // (plain round-trip scenarios, 1 description in 25) so that the finding never hides
+            // behind, or hides, another clause.
+            if edge_desc && w.chance(1, 25) {
+                match w.draw(3) {
+                    0 => d.clear(),
+                    1 => d.push(' '),
+                    _ => d.push(*w.pick(&['\t', ' ', '\u{a0}', '\u{3000}'])),
+                }
+                w.probe("description_empty_or_ending_in_whitespace");
+            } else if d.chars().last().map(|c| c.is_whitespace()).unwrap_or(false) {
                 d.push('x');
             }
             Some(d)
@@ -1015,9 +1026,44 @@ fn check_roundtrip(w: &World, clause: &'static str, p: &Parsed, expected: &[Rec]
         );
     }
     if p.recs != expected {
+        if let Some(msg) = only_description_whitespace_differs(&p.recs, expected) {
+            w.clause(K1_CLAUSE);
+            return fail(K1_CLAUSE, msg);
+        }
         return fail(clause, first_diff(&p.recs, expected));
     }
     Ok(())
+}
+
+/// Clause of known finding K1 (see known_findings.json): its own clause id, so that it never
+/// occupies the slot of a regular clause.
+const K1_CLAUSE: &str = "C11.k1-description-whitespace";
+
+/// Some(message) iff the two lists differ, and differ only in descriptions where the one read
+/// back is the written one with trailing white space removed (an empty result reads as None).
+fn only_description_whitespace_differs(read: &[Rec], wrote: &[Rec]) -> Option<String> {
+    if read.len() != wrote.len() {
+        return None;
+    }
+    let mut example = None;
+    for (r, x) in read.iter().zip(wrote.iter()) {
+        if r.id != x.id || r.seq != x.seq || r.qual != x.qual {
+            return None;
+        }
+        if r.desc != x.desc {
+            let trimmed = x.desc.as_ref().map(|d| d.trim_end().to_string()).filter(|d| !d.is_empty());
+            if r.desc != trimmed {
+                return None;
+            }
+            if example.is_none() {
+                example = Some(format!(
+                    "trailing white space or empty description not preserved: wrote description {:?}, read back {:?} (record id {:?}); everything else is identical",
+                    x.desc, r.desc, x.id
+                ));
+            }
+        }
+    }
+    example
 }
 
 fn roundtrip(w: &W, kind: Kind, with_cut: bool) -> Verdict {
@@ -1036,7 +1082,7 @@ fn roundtrip(w: &W, kind: Kind, with_cut: bool) -> Verdict {
             w.note("magic_size", json!(m));
         }
     }
-    let recs = gen_records(w, kind, scale, magic);
+    let recs = gen_records(w, kind, scale, magic, !with_cut);
     if !recs.is_empty() {
         w.probe("workload_nonempty");
     }
@@ -1236,7 +1282,7 @@ fn judge_cut(w: &World, kind: Kind, recs: &[Rec], boundaries: &[usize], c: usize
 
 /// Every cut offset of one small file, each with a freshly drawn reader and read schedule.
 fn cut_sweep(w: &W, kind: Kind) -> Verdict {
-    let mut recs = gen_records(w, kind, Scale::Small, None);
+    let mut recs = gen_records(w, kind, Scale::Small, None, false);
     if !crate::world::thorough() {
         recs.truncate(3);
         for r in recs.iter_mut() {
@@ -1320,7 +1366,7 @@ fn fx_garbage(w: &W) -> Verdict {
             w.fired("garbage_uniform");
         }
         _ => {
-            recs = gen_records(w, kind, Scale::Small, None);
+            recs = gen_records(w, kind, Scale::Small, None, false);
             let splits: Vec<Vec<usize>> = recs.iter().map(|r| split_points(w, r.seq.len(), 3)).collect();
             let crlf = w.chance(1, 3);
             bytes = layout(kind, &recs, &splits, crlf).bytes;
@@ -1405,7 +1451,7 @@ pub fn property() -> Property {
             "header_split_across_reads", "cr_lf_in_different_reads", "utf8_char_split_across_reads", "first_byte_delivered_alone",
             "cut_at_record_boundary", "cut_inside_header", "cut_inside_plus_line", "cut_inside_quality", "cut_inside_sequence", "cut_inside_terminator",
             "quality_starts_with_at", "quality_starts_with_plus", "writer_buffer_smaller_than_field", "relayout_multiline_crlf",
-            "sniffer_used", "sniff_seek_stream_not_at_zero", "magic_size_run", "wrap_equals_magic_and_sequence_reaches_it", "large_regime", "many_records_regime", "huge_regime", "cut_sweep", "garbage_invalid_utf8", "garbage_rejected_with_error",
+            "sniffer_used", "description_empty_or_ending_in_whitespace", "sniff_seek_stream_not_at_zero", "magic_size_run", "wrap_equals_magic_and_sequence_reaches_it", "large_regime", "many_records_regime", "huge_regime", "cut_sweep", "garbage_invalid_utf8", "garbage_rejected_with_error",
         ],
         quick_runs: 400_000,
         thorough_runs: 30_000_000,
